@@ -172,7 +172,7 @@ def level_b(rep, tier, seed):
     t0 = time.time()
     n = GRID_CASES[tier]
     args = [(seed, i, GRID_SCHEDULES[tier], tier == "quick") for i in range(n)]
-    res = batch.map_chunks(_grid_job, args, limit_s=1500)
+    res = batch.map_chunks(_grid_job, args, limit_s=900)
     runs = [r for job in res for r in job]
     cnt = collections.Counter()
     probes = collections.Counter()
@@ -217,7 +217,8 @@ def main(tier, seed):
     core.assert_repo_import()
     rep = Report("C13", tier, seed)
     info_a, samples = level_a(rep, tier, seed)
-    info_b, samples_b = level_b(rep, tier, seed)
+    info_b, samples_b = rep.phase("level_B", level_b, rep, tier, seed) or (
+        {"runs": 0, "distinct_signatures": 0, "aborted": True}, [])
     samples = samples[:2] + samples_b
     coverage = {
         "evaluations": info_a["runs"] + info_b["runs"],
